@@ -128,6 +128,56 @@ def row_of(spec):
     return _ROW_CACHE[k]
 
 
+CONTAINERS = ["list", "tuple", "gen", "iter", "dictkeys"]
+
+
+def container_of(op):
+    """how an `add` op hands its batch to add(traces: Iterable[CallTrace]): optional 5th element of the op"""
+    return op[4] if op[0] == "add" and len(op) > 4 and op[4] else "list"
+
+
+def effective_specs(op):
+    """the traces add() is given, in order.  A dict view cannot hold equal keys twice: equal traces collapse there
+    (first occurrence stays); a batch with an unhashable trace cannot be a dict view and is passed as an iterator."""
+    specs = list(op[2])
+    if container_of(op) != "dictkeys":
+        return specs
+    try:
+        seen = {}
+        for i, sp in enumerate(specs):
+            seen.setdefault(build_trace(sp), i)
+    except TypeError:
+        return specs
+    return [specs[i] for i in sorted(seen.values())]
+
+
+def make_batch(op):
+    """the object passed to add()"""
+    kind = container_of(op)
+    specs = effective_specs(op)
+    traces = [build_trace(sp) for sp in specs]
+    if kind == "tuple":
+        return tuple(traces)
+    if kind == "gen":
+        return (t for t in traces)
+    if kind == "iter":
+        return iter(traces)
+    if kind == "dictkeys":
+        try:
+            d = dict.fromkeys(traces)
+        except TypeError:
+            return iter(traces)
+        if len(d) != len(traces):       # object() callables of "bad func" traces never compare equal; be safe
+            return iter(traces)
+        return d.keys()
+    return traces
+
+
+def op_rows(op):
+    """[row | None] the model's batch of an add / add_fault op"""
+    return batch_rows(effective_specs(op) if op[0] == "add" else op[2])
+
+
 def batch_rows(specs):
     """[row | None] in batch order; evil traces count as None (the whole add aborts anyway)"""
     return [None if s[0] == "evil" else row_of(s) for s in specs]
@@ -236,7 +286,7 @@ class Rig:
             day = op[3] if len(op) > 3 else None       # optional 4th element: the calendar day the add happens on
             try:
                 with clock_on_day(day):
-                    self.stores[ci].add([build_trace(s) for s in specs])
+                    self.stores[ci].add(make_batch(op))
                 return {"k": "none"}
             except Exception as e:
                 return {"k": "raised", "err": f"{type(e).__name__}: {e}"}
@@ -482,7 +532,7 @@ class Interner:
 def step_term(it: Interner, op, obs):
     kind = op[0]
     if kind == "add":
-        b = it.batch(batch_rows(op[2]))
+        b = it.batch(op_rows(op))
         return f"COp (Add {b}) {'ONone' if obs['k'] == 'none' else 'ORaised'}"
     if kind == "add_fault":
         specs = list(op[2])
@@ -537,7 +587,7 @@ class RefModel:
 
     def apply(self, op, obs):
         if op[0] == "add" and obs["k"] == "none":
-            self.rows += [r for r in batch_rows(op[2]) if r is not None]
+            self.rows += [r for r in op_rows(op) if r is not None]
         elif op[0] == "add_fault":
             self.rows = list(obs["table"]) if obs["k"] != "none" else self.rows + [r for r in batch_rows(op[2]) if r is not None]
 
